@@ -153,6 +153,8 @@ EXPORT void __attribute__ ((noinline)) intVecSubTo_avx(int32_t* r, const int32_t
 	    "movq %%rdx,%%rax\n"
 	    "andq $0xFFFFFFFFFFFFFFF8,%%rax\n"  //r8: n0 = n - n%8
 	    "leaq (%%rsi,%%rax,4),%%rcx\n"       //r9: aend = a + 4n0
+	    "cmpq %%rcx,%%rsi\n"                //n0 == 0 (n < 8): no 8-wide block
+	    "jae 5f\n"
 	    "1:\n"
 	    "vmovdqu (%%rdi),%%ymm0\n"
 	    "vmovdqu (%%rsi),%%ymm1\n"
@@ -162,6 +164,7 @@ EXPORT void __attribute__ ((noinline)) intVecSubTo_avx(int32_t* r, const int32_t
 	    "addq $32,%%rsi\n"                 //advance a by 8*4
 	    "cmpq %%rcx,%%rsi\n"                //until aend
 	    "jb 1b\n"
+	    "5:\n"
 	    "vzeroall\n"
 	    "subq %%rax,%%rdx\n"                //n = n - n0 (between 0 and 7)
 	    "cmpq $4,%%rdx\n"                  //last 4 operands?
